@@ -501,6 +501,8 @@ pub fn shard_main(prop: &Prop, env: Env) -> i32 {
                 }
             });
         }
+        // the first failure as it happened: racy cases may not fail again while shrinking
+        let first_fail: RefCell<Option<(Failure, Vec<u32>)>> = RefCell::new(None);
         let res = runner.run(&strat, |v| {
             progress.fetch_add(1, std::sync::atomic::Ordering::SeqCst);
             if prop.breadcrumb {
@@ -513,6 +515,9 @@ pub fn shard_main(prop: &Prop, env: Env) -> i32 {
                 Ok(()) => Ok(()),
                 Err(f) => {
                     s.counting = false;
+                    if first_fail.borrow().is_none() {
+                        *first_fail.borrow_mut() = Some((f.clone(), v.clone()));
+                    }
                     Err(TestCaseError::fail(f.sig))
                 }
             }
@@ -525,15 +530,16 @@ pub fn shard_main(prop: &Prop, env: Env) -> i32 {
                     s.counting = false;
                     let mut src = Src::new(&minimal);
                     let r = (prop.case)(&mut src, &mut s, &env);
-                    let fl = match handle(&env, &mut s, r) {
-                        Err(f) => f,
-                        Ok(()) => Failure::new(
-                            "flaky",
-                            "the shrunk case did not fail when re-run",
-                            json!(null),
-                        ),
-                    };
-                    failure = Some((fl, minimal));
+                    match handle(&env, &mut s, r) {
+                        Err(f) => failure = Some((f, minimal)),
+                        Ok(()) => {
+                            // not reproduced after shrinking (a sampled interleaving): report the
+                            // failure as first observed, with the unshrunk case
+                            let (mut f, choices) = first_fail.borrow_mut().take().unwrap_or((Failure::new("flaky", "a failure was seen but not recorded", json!(null)), minimal));
+                            f.detail = format!("{}\n    (observed once; it did not recur while shrinking, so the case is reported unshrunk)", f.detail);
+                            failure = Some((f, choices));
+                        }
+                    }
                 }
                 TestError::Abort(r) => {
                     failure = Some((
